@@ -20,6 +20,80 @@ def gen_package(seed, ncase=NCASE, **kw):
             "src": Renderer(g.prog).package(tests)}
 
 
+def gen_main_package(seed):
+    """One script whose `main` returns a value (observed through the script's own return receipts)."""
+    g = Gen(seed)
+    m = normalize(g.main_fn())
+    normalize(g.prog)
+    return {"id": "m%d" % seed, "seed": seed, "prog": g.prog, "main": m, "tests": [{"name": "main", "body": m["body"]}],
+            "src": Renderer(g.prog).package([], main=m)}
+
+
+def run_main_configs(ctx, packages, configs, procs=8):
+    """Build scripts and run `main` (vh-exec run_main). Returns (obs, failures) in the shape of run_configs."""
+    from lib.swayexec import observe_main
+    jobs = []
+    for p in packages:
+        for c in configs:
+            jobs.append({"id": "%s__%s" % (p["id"], c["name"]), "files": {"src/main.sw": p["src"]}, "profile": c["profile"],
+                         "env": c.get("env", {}), "run_main": True, "run": False})
+    res = run_packages(ctx, jobs, procs=procs)
+    obs = {p["id"]: {"main": []} for p in packages}
+    failures = []
+    for p in packages:
+        for c in configs:
+            r = res["%s__%s" % (p["id"], c["name"])]
+            b = r["built"]
+            if r["crashed"] or b is None or not b["ok"]:
+                kind = "crash" if (r["crashed"] or b is None) else ("timeout" if b.get("timeout") else ("panic" if b.get("panic") else "build"))
+                d = (b or {}).get("diag") or ""
+                errs = [x for x in d.split("____") if x.strip().startswith("error")]
+                failures.append({"pkg": p["id"], "cfg": c["name"], "kind": kind, "detail": ((b or {}).get("panic") or "") + " ".join(e.strip()[-600:] for e in errs[:2])})
+                continue
+            if r["main"] is None or "state" not in r["main"]:
+                failures.append({"pkg": p["id"], "cfg": c["name"], "kind": "run", "detail": json.dumps(r["main"])[:600]})
+                continue
+            o = observe_main(r["main"])
+            o["cfg"] = c["name"]
+            obs[p["id"]]["main"].append(o)
+    return obs, failures
+
+
+def probe_packages():
+    """Hand-written probes of documented latitude / known findings. Rejections on these packages are reported
+    under fixed keys `probe:<name>:<test>` so that known_findings.json can list them individually."""
+    from lib.swaygen import lit, block, T, UNIT
+    def var(x): return {"k": "var", "x": x}
+    def call(f, *a, **kw):
+        d = {"k": "call", "f": f, "args": list(a)}
+        d.update(kw)
+        return d
+    idfn = lambda t: {"params": [{"n": "x", "ty": T(t)}], "ret": T(t), "noinline": True, "body": block([], var("x"))}
+    gsecond = {"tparams": ["A", "B"], "params": [{"n": "a", "ty": {"t": "param", "name": "A"}}, {"n": "b", "ty": {"t": "param", "name": "B"}}],
+               "ret": {"t": "param", "name": "B"}, "body": block([], var("b"))}
+    prog = {"structs": {}, "enums": {}, "fns": {"id_u64": idfn("u64"), "gsecond": gsecond}}
+    div0 = {"k": "bin", "op": "div", "l": call("id_u64", lit("u64", 1)), "r": call("id_u64", lit("u64", 0))}
+    arr = {"t": "array", "e": T("u64"), "n": 3}
+    tests_oob = [{"name": "oob_read", "body": block([
+        {"k": "let", "x": "a", "mut": False, "ty": arr, "e": {"k": "array", "es": [lit("u64", 1), lit("u64", 2), lit("u64", 3)]}},
+        {"k": "let", "x": "i", "mut": False, "ty": T("u64"), "e": call("id_u64", lit("u64", 3))},
+        {"k": "log", "e": {"k": "index", "e": var("a"), "i": var("i")}}])}]
+    tests_dce = [
+        {"name": "dead_let", "body": block([
+            {"k": "let", "x": "d", "mut": False, "ty": T("u64"), "e": div0},
+            {"k": "log", "e": lit("u64", 7)}])},
+        {"name": "dead_tuple_elem", "body": block([
+            {"k": "let", "x": "t", "mut": False, "ty": {"t": "tuple", "es": [T("u64"), T("u64")]}, "e": {"k": "tuple", "es": [div0, lit("u64", 5)]}},
+            {"k": "log", "e": {"k": "field", "e": var("t"), "i": 2}}])},
+        {"name": "dead_argument", "body": block([
+            {"k": "log", "e": call("gsecond", div0, lit("u64", 7), targs=[T("u64"), T("u64")])}])},
+    ]
+    out = []
+    for name, tests in (("probe_oob", tests_oob), ("probe_dce", tests_dce)):
+        out.append({"id": name, "seed": name, "prog": prog, "tests": tests, "src": Renderer(prog).package(tests), "probe": True})
+    return out
+
+
 def cfg_name(cfg):
     return cfg["name"]
 
@@ -135,7 +209,10 @@ def report_rejections(ctx, rejections, packages):
         wrong = [o["cfg"] for o in rj["obs"]
                  if not (o["logs"] == rj["expected"]["logs"] and o["out"] == rj["expected"]["out"] and o["code"] == rj["expected"]["code"])]
         src = Renderer(p["prog"]).package([t for t in p["tests"] if t["name"] == rj["test"]])
-        ctx.report("sem:%s:%s:%s" % (rj["pkg"], rj["test"], ",".join(wrong)),
+        key = "sem:%s:%s:%s" % (rj["pkg"], rj["test"], ",".join(wrong))
+        if p.get("probe"):
+            key = "probe:%s:%s:%s" % (rj["pkg"], rj["test"], ",".join(wrong))
+        ctx.report(key,
                    "observation of %s/%s under %s differs from SwaySem.Run" % (rj["pkg"], rj["test"], wrong),
                    {"package_seed": p["seed"], "test": rj["test"], "configs_disagreeing": wrong,
                     "expected_by_spec": rj["expected"], "observed": rj["obs"], "source_of_test": src})
